@@ -84,5 +84,46 @@ def step (h : HistBuf β) : Op β → HistBuf β
 
 def run (ops : List (Op β)) : HistBuf β := ops.foldl step init
 
+/-! ### Hand-over: move construction and move assignment
+
+`HistoryBuffer(HistoryBuffer&&)` and `operator=(HistoryBuffer&&)` give the destination the source's
+window, deque and state size and leave the source in the documented moved-from state: `window_ = 0`,
+`state_size_ = 0`, empty deque.  (`state_size_` is not part of this model: it only matters for reading a
+non-empty moved-from buffer back, which is an Eigen size assertion for a non-zero original state size.) -/
+
+/-- the documented moved-from state -/
+def movedFrom : HistBuf β := ⟨[], 0⟩
+
+/-- move out of `src`: (destination, source afterwards) -/
+def moveOut (src : HistBuf β) : HistBuf β × HistBuf β := (src, movedFrom)
+
+/-- Two buffers (slots `false` / `true`) with operations addressed to a slot, move construction of the
+    other slot from a slot, and move assignment between slots (self-assignment is guarded: no-op). -/
+structure Pair (β : Type) where
+  a : HistBuf β
+  b : HistBuf β
+
+def Pair.get (p : Pair β) : Bool → HistBuf β
+  | false => p.a
+  | true => p.b
+
+def Pair.set (p : Pair β) : Bool → HistBuf β → Pair β
+  | false, h => { p with a := h }
+  | true, h => { p with b := h }
+
+inductive Op2 (β : Type)
+  | on (slot : Bool) (o : Op β)
+  /-- construct the other slot from `src` (the object previously there is destroyed) -/
+  | moveCtor (src : Bool)
+  /-- `slot[dst] = std::move(slot[src])` -/
+  | moveAssign (src dst : Bool)
+
+def step2 (p : Pair β) : Op2 β → Pair β
+  | .on i o => p.set i (step (p.get i) o)
+  | .moveCtor i => let r := moveOut (p.get i); (p.set (!i) r.1).set i r.2
+  | .moveAssign i j => if i = j then p else let r := moveOut (p.get i); (p.set j r.1).set i r.2
+
+def run2 (ops : List (Op2 β)) : Pair β := ops.foldl step2 ⟨init, init⟩
+
 end HistBuf
 end BFL
